@@ -18,7 +18,9 @@ map, LOAD records) on generated module programs, loader-call sequence + output +
 ModLang.eval_mech (vm_compute); (c) impl == S: the same against ModLang.eval_spec; plus the
 tests/scripts/modules corpus and two fixed probes that must pass (import at the frame limit, re-import after a failed body);
 (d) the built-in file-system loader (harness `c17fs`: no host loader, a fresh temporary directory): directed cases for every
-kind of unreadable module (S: an ImportError the importer can catch) and ModLang programs served as files."""
+kind of unreadable module (S: an ImportError the importer can catch) and ModLang programs served as files;
+(e) round 9 (tools/props/C14_r9.py): the HISTORY family (one import event repeated N = 2 .. 5000 times in one run, then probes) and
+the VALUE-KIND family (every kind of value in the importer's globals), yarel text with the oracle by construction."""
 import binascii
 import itertools
 import json
@@ -1572,8 +1574,8 @@ def check_round9(ch, quick, history_only=None, kind_only=None):
     if history_only is None:
         n += R9.check_kinds(ctx, rel, only=kind_only)
     if history_only is None and kind_only is None:
-        small = [R9.history_case(k, m, "host" if k in R9.HOST_ONLY else "main", "top") for k in R9.KINDS for m in (2, fm, fm + 1)]
-        small += [R9.chain_case(d, fm) for d in (fm - 2, fm - 1, fm)]
+        small = [R9.history_case(k, m, "host" if k in R9.HOST_ONLY else "main", "top") for k in R9.KINDS for m in (fm + 1,) if k != "distinct"]
+        small += [R9.chain_case(d, fm) for d in (fm - 1, fm)]
         n += R9.check_cases(ctx, ch.binary, small, "a HISTORY of import events, then probes (debug build)", "history_case")
         n += R9.check_kinds(ctx, ch.binary, only="kinds/main/top")
     log("[C14] round-9 families: %d cases in %.1fs" % (n, time.time() - t0))
